@@ -82,3 +82,36 @@ func (p *PFCPIface) VerifAssociations() int {
 	p.node.pConns.Range(func(_, _ interface{}) bool { n++; return true })
 	return n
 }
+
+// VerifUP4Occupancy returns the sizes of the UP4 plug-in's bookkeeping maps and
+// free-id pools (nil on another datapath). Read at quiescence only.
+func (p *PFCPIface) VerifUP4Occupancy() map[string]int {
+	u, ok := p.upf.datapath.(*UP4)
+	if !ok {
+		return nil
+	}
+	out := map[string]int{
+		"tunnelPeerIDs":        len(u.tunnelPeerIDs),
+		"tunnelPeerIDsPool":    len(u.tunnelPeerIDsPool),
+		"applicationIDs":       len(u.applicationIDs),
+		"applicationIDsPool":   len(u.applicationIDsPool),
+		"meters":               len(u.meters),
+		"ueAddrToFSEID":        len(u.ueAddrToFSEID),
+		"fseidToUEAddr":        len(u.fseidToUEAddr),
+		"appMeterCellIDsPool":  -1,
+		"sessMeterCellIDsPool": -1,
+		"counterIDsPools":      0,
+	}
+	if u.appMeterCellIDsPool != nil {
+		out["appMeterCellIDsPool"] = u.appMeterCellIDsPool.Cardinality()
+	}
+	if u.sessMeterCellIDsPool != nil {
+		out["sessMeterCellIDsPool"] = u.sessMeterCellIDsPool.Cardinality()
+	}
+	for _, c := range u.counters {
+		if c.counterIDsPool != nil {
+			out["counterIDsPools"] += c.counterIDsPool.Cardinality()
+		}
+	}
+	return out
+}
